@@ -53,6 +53,8 @@ def plan(tier, seed):
     n = NSHARD[tier]
     specs = [{"part": "graphs", "shard": i, "of": n} for i in range(n)]
     specs += [{"part": "bfs", "seed": s} for s in ("empty", "path", "triangle", "selfloop", "parallel")]
+    if tier == "thorough":
+        specs += [dict(x, hashseed=1) for x in specs if x["part"] == "graphs"]
     return specs
 
 
